@@ -655,6 +655,8 @@ func (c *client) loopWrite() {
 		vhook.At("redis.client.write.before_handoff")
 		select {
 		case <-c.quit:
+			// the request in hand is in neither queue, nobody else will finish it.
+			req.SetResponse(newError(backendExited))
 			return
 		case c.processingReqs <- req:
 		}
